@@ -143,6 +143,8 @@ extern "C" {
     extern int (*vf_hook_unlock)(void *m, int (*real)(void *));
     extern int (*vf_hook_usleep)(unsigned us);
     extern long vf_popen_calls;
+    extern long vf_replace_budget, vf_replace_calls, vf_replace_bytes;
+    extern int vf_replace_exceeded;
 }
 inline void arm_fail(long k, bool sticky = false) { vf_alloc_count = 0; vf_fail_at = k; vf_fail_sticky = sticky; vf_failed_count = 0; }
 inline void disarm_fail() { vf_fail_at = 0; vf_fail_sticky = 0; }
@@ -162,6 +164,11 @@ struct Buf {
     ~Buf() { delete[] p; }
     char *c() { return (char *)p; }
 };
+
+// known-finding exclusion (signatures from KNOWN_FINDINGS.txt via VF_EXCLUDE); enumerators use
+// these to keep going behind a listed finding, counting what they skipped
+bool is_excluded(const std::string &sig);
+void count_excluded(const std::string &sig);
 
 std::string hexs(const void *p, size_t n, size_t cap = 24);
 inline std::string hexs(const std::string &s, size_t cap = 24) { return hexs(s.data(), s.size(), cap); }
